@@ -128,6 +128,8 @@ type Exec struct {
 	epochParents map[int][]epochParent // a join of different havoc histories: which epoch each joined path was in
 	noStoreHit map[string]bool
 	confineHit map[string]bool
+	aoB0, aoH0 *Term // append-only: the buffer parameter at entry and the byte arrays at entry
+	aoAssumed  int
 	stablePrev map[int]int // epoch -> the epoch it replaced (fields of stable structs carry over)
 	clauseUsed map[string]int
 	ghostOn  bool
